@@ -60,6 +60,10 @@ type Run struct {
 	Findings []Finding
 	Start    time.Time
 
+	// multi: the check has several parts (engines); their evidence is merged by FlushParts
+	multi bool
+	parts []*Evidence
+
 	violations []string // replay paths
 	known      []string // KNOWN-FINDING lines
 	infra      []string
@@ -124,6 +128,10 @@ func (r *Run) Infra(f string, a ...any) {
 
 // WriteEvidence writes evidence/<id>.json.
 func (r *Run) WriteEvidence(ev *Evidence) error {
+	if r.multi {
+		r.parts = append(r.parts, ev)
+		return nil
+	}
 	ev.PropertyID = r.Opt.Property
 	ev.Tier = r.Opt.Tier
 	ev.Seed = r.Opt.Seed
@@ -144,6 +152,80 @@ func (r *Run) WriteEvidence(ev *Evidence) error {
 		return err
 	}
 	return os.WriteFile(filepath.Join(dir, r.Opt.Property+".json"), b, 0o644)
+}
+
+func asInt(v any) int {
+	switch n := v.(type) {
+	case int:
+		return n
+	case int64:
+		return int(n)
+	case float64:
+		return int(n)
+	}
+	return 0
+}
+
+// FlushParts merges the evidence of the parts of a multi-part check (names in the order the
+// parts ran) and writes it: counts are summed, samples concatenated, every part's own
+// coverage is kept under parts.<name>.
+func (r *Run) FlushParts(names []string) error {
+	r.multi = false
+	if len(r.parts) == 0 {
+		return nil
+	}
+	cov := map[string]any{"exhaustive": false}
+	var rules []string
+	var samples []any
+	evals, nontriv := 0, 0
+	partsCov := map[string]any{}
+	var assumptions []string
+	seenA := map[string]bool{}
+	for i, p := range r.parts {
+		name := fmt.Sprintf("part%d", i+1)
+		if i < len(names) {
+			name = names[i]
+		}
+		evals += asInt(p.Coverage["evaluations"])
+		nontriv += asInt(p.Coverage["distinct_nontrivial"])
+		if s, ok := p.Coverage["rule"].(string); ok {
+			rules = append(rules, name+": "+s)
+		}
+		b, _ := json.Marshal(p.Coverage["samples"])
+		var ss []any
+		json.Unmarshal(b, &ss)
+		if len(ss) > 6 {
+			ss = ss[:6]
+		}
+		samples = append(samples, ss...)
+		partsCov[name] = p.Coverage
+		for _, a := range p.Assumptions {
+			if !seenA[a] {
+				seenA[a] = true
+				assumptions = append(assumptions, a)
+			}
+		}
+	}
+	cov["evaluations"] = evals
+	cov["distinct_nontrivial"] = nontriv
+	cov["rule"] = strings.Join(rules, " || ")
+	cov["samples"] = samples
+	cov["parts"] = partsCov
+	r.parts = nil
+	return r.WriteEvidence(&Evidence{Coverage: cov, Assumptions: assumptions})
+}
+
+// replayEngine reads the engine field of a replay file ("" when unreadable).
+func replayEngine(path string) string {
+	b, err := os.ReadFile(path)
+	if err != nil {
+		return ""
+	}
+	var h struct {
+		Engine string `json:"engine"`
+	}
+	json.Unmarshal(b, &h)
+	return h.Engine
 }
 
 // Runner is a property check.
